@@ -3,7 +3,9 @@ package main
 func init() {
 	q := tierCfg{Runs: 1600, JobSize: 100, BudgetS: 150}
 	th := tierCfg{Runs: 64000, JobSize: 200, BudgetS: 1500}
-	for _, id := range []string{"C10", "C11", "C12", "C14", "C15", "C23", "C38"} {
+	props["C19"] = &propCfg{Engine: "nodesim", Test: "TestC19", Level: "fault_enumeration",
+		Quick: tierCfg{Runs: 192, JobSize: 12, BudgetS: 150}, Thorough: tierCfg{Runs: 6400, JobSize: 40, BudgetS: 1700}}
+	for _, id := range []string{"C10", "C11", "C12", "C13", "C14", "C15", "C16", "C17", "C18", "C23", "C38"} {
 		props[id] = &propCfg{Engine: "nodesim", Test: "Test" + id, Level: "exploration", Quick: q, Thorough: th}
 	}
 }
